@@ -224,9 +224,12 @@ def run_labels(topo: Topo, labels, rng, finish=200, **pipekw):
     return pipe, r['skipped']
 
 
-def replay_trace(topo, trace, **pipekw):
-    """Re-execute a recorded world trace (actions + fault entries) on a fresh pipeline."""
-    pipe = SimPipeline(topo, **pipekw)
+def replay_trace(topo, trace, pipe=None, **pipekw):
+    """Re-execute a recorded world trace (actions + fault entries) on a fresh pipeline (or on `pipe`, started by the caller:
+    its own start-up entries are then skipped)."""
+    if pipe is not None:
+        trace = trace[len(pipe.world.trace):]
+    pipe = pipe or SimPipeline(topo, **pipekw)
     w = pipe.world
     first = True
     for e in trace:
@@ -238,7 +241,11 @@ def replay_trace(topo, trace, **pipekw):
                 w.trace.pop()     # restart() performs (and records) the first run of the new task itself
             continue
         x = e[1]
-        if kind in ('run', 'timeout'):
+        if kind == 'tick':
+            t = w.tasks.get(x)
+            if t is not None and t.enabled_action() is None:
+                pipe.do((kind, t))
+        elif kind in ('run', 'timeout'):
             t = w.tasks.get(x)
             if t is None or t.enabled_action() != kind:
                 continue
@@ -366,13 +373,15 @@ class Engine:
         return res
 
     # -- 2. mutation-directed schedules -----------------------------------------------------------------------------------
-    def mutation_schedules(self, topo, spec, mutations, *, invariant='NoViolation', timeout=600, bounds=None, sim=None, **cfgkw):
+    def mutation_schedules(self, topo, spec, mutations, *, invariant='NoViolation', timeout=600, bounds=None, sim=None,
+                           judgekw=None, **cfgkw):
         """For every design mutation: the behaviour on which TLC shows the mutated design violating `invariant`,
         replayed as a schedule on the real code and judged."""
         for mut in mutations:
             labels = self.mutation_labels(topo, spec, mut, invariant=invariant, timeout=timeout, bounds=bounds, sim=sim, **cfgkw)
             if labels:
-                self.real_run_labels(topo, labels, origin=f'counterexample of design mutation {mut} ({topo.name}/{spec}, depth {len(labels) + 1})')
+                self.real_run_labels(topo, labels, origin=f'counterexample of design mutation {mut} ({topo.name}/{spec}, depth {len(labels) + 1})',
+                                     **(judgekw or {}))
 
     def mutation_labels(self, topo, spec, mut, *, invariant='NoViolation', timeout=600, bounds=None, sim=None, **cfgkw):
         if True:
